@@ -11,6 +11,22 @@ from .common import *
 
 WHERE = ("core", "src/value.rs")
 
+# The behaviour of IndexSet (membership, size, iteration order) does not depend on the hash values as long as equal elements
+# hash equally - and that is what the hash-eq harnesses decide.  For the harnesses that run IndexSet itself the std
+# DefaultHasher is therefore replaced by the degenerate hasher "every element hashes to 0": all elements collide, every
+# lookup falls through to `Value == Value`, and SipHash rounds over symbolic bytes (and the symbolic bucket indices they
+# produce) stay out of the query.
+HASHER_STUBS = '''
+  pub fn vp_random_state() -> ::std::hash::RandomState { unsafe { ::std::mem::transmute::<[u64; 2], ::std::hash::RandomState>([0x0123_4567_89ab_cdefu64, 0x0fed_cba9_8765_4321u64]) } }
+  pub fn vp_dh_write(_h: &mut ::std::hash::DefaultHasher, _b: &[u8]) {}
+  pub fn vp_dh_write_str(_h: &mut ::std::hash::DefaultHasher, _s: &str) {}
+  pub fn vp_dh_finish(_h: &::std::hash::DefaultHasher) -> u64 { 0 }
+'''
+STUB_RS = "#[kani::stub(::std::hash::RandomState::new, vp_random_state)]"
+STUB_DH = ["#[kani::stub(<::std::hash::DefaultHasher as ::std::hash::Hasher>::write, vp_dh_write)]",
+           "#[kani::stub(<::std::hash::DefaultHasher as ::std::hash::Hasher>::write_str, vp_dh_write_str)]",
+           "#[kani::stub(<::std::hash::DefaultHasher as ::std::hash::Hasher>::finish, vp_dh_finish)]"]
+
 PRELUDE = '''
   // deterministic, injective-on-short-streams hasher: records the first 32 bytes and the stream length
   pub struct VH { pub w: [u64; 4], pub n: usize }
@@ -24,7 +40,7 @@ PRELUDE = '''
   }
   pub fn vh_same(a: &VH, b: &VH) -> bool { a.n == b.n && a.w[0] == b.w[0] && a.w[1] == b.w[1] && a.w[2] == b.w[2] && a.w[3] == b.w[3] }
   pub fn vh_of(v: &Value) -> VH { let mut h = VH::new(); ::std::hash::Hash::hash(v, &mut h); h }
-'''
+''' + HASHER_STUBS
 
 
 def scalar_pair(t, name):
@@ -57,10 +73,12 @@ def gen_tuple(t1, t2, tier):
     b.append("let ha = vh_of(&ta); let hb = vh_of(&tb);")
     b.append("if equal { assert!(vh_same(&ha, &hb), \"VP:equal-values-hash-differently\"); }")
     b.append("forget(ta); forget(tb);")
-    return H("c14_hash_eq_tuple_%s_%s" % (t1.lower(), t2.lower()), "    " + "\n    ".join(b), WHERE, domain="accept",
+    h = H("c14_hash_eq_tuple_%s_%s" % (t1.lower(), t2.lower()), "    " + "\n    ".join(b), WHERE, domain="accept",
              key="hash-eq/Tuple(%s,%s)" % (v1, v2), desc="two symbolic (%s,%s) tuples: equal implies identical hash stream" % (t1, t2),
              functions=["<Value as Hash>::hash", "<MechTuple as Hash>::hash (src/core/src/structures/tuple.rs)", "derived PartialEq"],
              bounds="all values of the four components", unwind=18, tier=tier)
+    h.rec_limit = 2
+    return h
 
 
 def gen_matrix(t, tier):
@@ -84,17 +102,20 @@ def gen_set_order(tier):
     b = ["let x: u8 = kani::any(); let y: u8 = kani::any();", "kani::assume(x != y);"]
     b.append("let mut s1 = indexmap::IndexSet::new(); s1.insert(Value::U8(Ref::new(x))); s1.insert(Value::U8(Ref::new(y)));")
     b.append("let mut s2 = indexmap::IndexSet::new(); s2.insert(Value::U8(Ref::new(y))); s2.insert(Value::U8(Ref::new(x)));")
-    b.append("let a = Value::Set(Ref::new(MechSet::from_set(s1))); let c = Value::Set(Ref::new(MechSet::from_set(s2)));")
+    b.append("let a = Value::Set(Ref::new(MechSet { kind: ValueKind::U8, num_elements: 2, set: s1 })); let c = Value::Set(Ref::new(MechSet { kind: ValueKind::U8, num_elements: 2, set: s2 }));")
     b.append("let equal = a == c;")
     b.append("kani::cover!(equal, \"VP:reached-equal\");")
     b.append("let ha = vh_of(&a); let hc = vh_of(&c);")
     b.append("if equal { assert!(vh_same(&ha, &hc), \"VP:equal-values-hash-differently\"); }")
     b.append("forget(a); forget(c);")
-    return H("c14_hash_eq_set_order", "    " + "\n    ".join(b), WHERE, domain="accept", key="hash-eq/Set(order)",
+    h = H("c14_hash_eq_set_order", "    " + "\n    ".join(b), WHERE, domain="accept", key="hash-eq/Set(order)",
              desc="{x,y} and {y,x} (symbolic distinct u8): equal sets must hash equally, otherwise a set of sets holds duplicates",
              functions=["<MechSet as Hash>::hash (src/core/src/structures/set.rs)", "derived PartialEq of MechSet (IndexSet equality)",
                         "MechSet::from_set"],
-             bounds="two elements, all u8 values; IndexSet/SipHash as compiled", unwind=18, tier=tier)
+             bounds="two elements, all u8 values; IndexSet as compiled under the all-colliding hasher stub", unwind=18, tier=tier)
+    h.attrs = [STUB_RS] + STUB_DH
+    h.rec_limit = 2
+    return h
 
 
 def gen_from_vec(tier):
@@ -106,10 +127,13 @@ def gen_from_vec(tier):
     b.append("assert!(s.kind == ValueKind::U8, \"VP:set-kind-wrong\");")
     b.append("kani::cover!(distinct == 2, \"VP:reached-duplicate\");")
     b.append("forget(s);")
-    return H("c14_from_vec_u8", "    " + "\n    ".join(b), WHERE, domain="accept", key="from_vec/U8",
+    h = H("c14_from_vec_u8", "    " + "\n    ".join(b), WHERE, domain="accept", key="from_vec/U8",
              desc="MechSet::from_vec on three symbolic u8: size = number of distinct values, num_elements = size, kind = u8",
              functions=["MechSet::from_vec (src/core/src/structures/set.rs)", "IndexSet::insert as compiled"],
              bounds="3 elements, all u8 values", unwind=18, tier=tier)
+    h.attrs = [STUB_RS] + STUB_DH
+    h.rec_limit = 1
+    return h
 
 
 def gen_total(name, expr, what, tier, unwind=8):
@@ -133,10 +157,7 @@ SETOPS = {
     "symmetric_difference": ("src/operations/symmetric_difference.rs", "SetSymDifferenceFxn", "op"),
     "element_of": ("src/membership/element_of.rs", "SetElementOfFxn", "mem"),
 }
-STUB_RS = "#[kani::stub(::std::hash::RandomState::new, vp_random_state)]"
-SET_PRELUDE = '''
-  // HashMap/IndexSet semantics do not depend on the hasher keys: fixed keys keep the getrandom loop out of the query
-  pub fn vp_random_state() -> ::std::hash::RandomState { unsafe { ::std::mem::transmute::<[u64; 2], ::std::hash::RandomState>([0x0123_4567_89ab_cdefu64, 0x0fed_cba9_8765_4321u64]) } }
+SET_PRELUDE = HASHER_STUBS + '''
   pub fn vp_set(xs: &[u8]) -> MechSet { let mut v = Vec::new(); let mut i = 0; while i < xs.len() { v.push(Value::U8(Ref::new(xs[i]))); i += 1; } MechSet::from_vec(v) }
   pub fn vp_has(s: &MechSet, x: u8) -> bool { let mut found = false; for v in s.set.iter() { if let Value::U8(c) = v { if *c.borrow() == x { found = true; } } } found }
 '''
@@ -192,7 +213,7 @@ def gen_setop(op, na, nb, tier):
           functions=["%s::solve (machines/set/%s)" % (struct, relp), "MechSet::from_vec", "IndexSet::{insert,union,intersection,difference,"
                      "symmetric_difference,is_subset,is_superset,contains} as compiled", "<Value as Hash>::hash / PartialEq for U8"],
           bounds="|A| = %d, |B| = %d, element values 0..3" % (na, nb), unwind=max(na, nb, 4) + 3, tier=tier, group="set-algebra", solver="kissat")
-    h.attrs = [STUB_RS]
+    h.attrs = [STUB_RS] + STUB_DH
     h.rec_limit = 1
     h.heavy = True
     return h
